@@ -9,7 +9,7 @@ still run on them).
 import random, itertools
 
 KEYCAP = {"micro": 255, "mini": 65535, "spur": 2**32 - 1, "large": 2**64 - 1}
-HASHERS = ["rs", "c0", "len", "low3", "fnv"]
+HASHERS = ["rs", "c0", "len", "low3", "fnv", "rcl"]
 ROUTES = ["inh", "trait", "mutref", "box", "dyn"]
 
 def hx(b: bytes) -> str:
@@ -83,7 +83,7 @@ def constructors(rng):
     for t in ("r", "t"):
         for c in CTORS:
             for cap, limv in ((1, None), (7, 7), (64, 100), (4096, 5000), (10000, 3)):
-                yield case(f"ct{n}", cfg(H=HASHERS[n % 5]), [f"CT {t} {c} {cap} {lim(limv)} {n % 9}"])
+                yield case(f"ct{n}", cfg(H=HASHERS[n % 6]), [f"CT {t} {c} {cap} {lim(limv)} {n % 9}"])
                 n += 1
 
 # ---------------------------------------------------------------- stream: arena small scope (C04 C08 C01 C13)
@@ -104,7 +104,7 @@ def arena_small(tier, rng):
                         for j, L in enumerate(ls):
                             ops.append(f"I 0 {hx(sized(j, L))}")
                         ops.append("CUR 0")
-                        yield case(f"as{n}", cfg(K="spur", H=HASHERS[n % 5]), ops)
+                        yield case(f"as{n}", cfg(K="spur", H=HASHERS[n % 6]), ops)
                         n += 1
 
 def arena_variants(tier, rng, count):
@@ -254,7 +254,7 @@ def keyfill(tier, rng):
                     ops += ["CL 0", "EQ 0 1", f"I 1 {hx(b'into-clone')}", "CF 1 0", "SER 0", "RD 0", f"G 0 {hx(sized(1, 3))}", "RS 0", "IT 0 bbn"]
                 else:
                     ops += ["SER 0", f"NR 4 max 0 9", "EQ 0 1"] + ([ "RD 0", f"G 0 {hx(sized(1, 3))}", "IT 0 nnb", "RS 0"] if variant % 2 == 0 else ["RS 0", "IT 0 nbn", "LEN 0"])
-                yield case(f"kf{n}", cfg(K=K, H=HASHERS[n % 5], V=ROUTES[n % 5], P=pool_e), ops)
+                yield case(f"kf{n}", cfg(K=K, H=HASHERS[n % 6], V=ROUTES[n % 5], P=pool_e), ops)
                 n += 1
 
 def keyfill_mini(rng):
